@@ -30,6 +30,9 @@ type Atom struct {
 	// gated merge ite(IteCond, IteT, IteF), if this atom is one
 	IteCond    string
 	IteT, IteF *Lin
+	// operator and operand forms of a derived (non-linear) atom; "" for base atoms
+	Op   string
+	Args []*Lin
 }
 
 // Restrict simplifies a form under the assumption that the branch conditions in
@@ -65,9 +68,22 @@ type Interner struct {
 	atoms map[string]*Atom
 	list  []*Atom
 	fresh int
+	// Conds maps the key of a branch condition used as a merge gate to the
+	// (un-negated) comparison it stands for.
+	Conds map[string]*Bool
 }
 
-func NewInterner() *Interner { return &Interner{atoms: map[string]*Atom{}} }
+func NewInterner() *Interner { return &Interner{atoms: map[string]*Atom{}, Conds: map[string]*Bool{}} }
+
+// NoteCond records the comparison behind a gate key.
+func (in *Interner) NoteCond(key string, b *Bool) {
+	if _, ok := in.Conds[key]; ok {
+		return
+	}
+	u := *b
+	u.Neg = false
+	in.Conds[key] = &u
+}
 
 func (in *Interner) Atom(key string, w int, hi uint64) *Atom {
 	if a, ok := in.atoms[key]; ok {
